@@ -315,8 +315,8 @@ def rule_pop(ctx, R):
     R.analyse(body.name)
     cfg = normal_cfg(body)
     ev = Events(body, fb)
-    exits = cfg.returns + diverging_exits(body, fb)
-    d = language(body, fb, cfg, 0, exits, ev, stop_at_exit=False)
+    # (1) the returning paths: stack 0 (refill then pop) and the ordinary stacks
+    d = language(body, fb, cfg, 0, cfg.returns, ev, stop_at_exit=False)
     line = "TRY(io::read_line_from(IN))"
     spec = Alt(
         Seq(
@@ -329,11 +329,65 @@ def rule_pop(ctx, R):
             "POPSTATE(K0)",
             "RET(Result::Ok{POPPED})",
         ),
-        Seq("SW[LOC]=1", "FLUSH(OUT)", "FLUSH(ERR)", "EXIT(K0)"),
-        Seq("SW[LOC]=2", "FLUSH(OUT)", "FLUSH(ERR)", "EXIT(K1)"),
         Seq("SW[LOC]!=0|1|2", "POPSTATE(LOC)", "RET(Result::Ok{POPPED})"),
     )
-    check_lang(R, "pop_stack_wrap:language", "pop from stack i (0 -> line-wise stdin refill in reverse then pop; 1/2 -> flush both streams then exit 0/1; other -> the stack)", d, spec, body.span)
+    check_lang(R, "pop_stack_wrap:language", "pop from stack i (0 -> line-wise stdin refill in reverse then pop; 1/2 -> never returns; other -> the stack)", d, spec, body.span)
+    # (2) the terminating paths as a decision table over the stack index: which indices reach process::exit, after
+    # which flushes, with which status (finite-domain evaluation of the branch conditions per index value along
+    # path-precise origins; merged arms such as `1 | 2 => exit(idx - 1)` give the same table)
+    from .paths import acyclic_paths, PathOriginsOv, simplify
+    from . import evalo
+    xs = diverging_exits(body, fb)
+    table = {}
+    bad = []
+    for v in (0, 1, 2, 3, 7):
+        env = [(lambda o: o == ("arg", 5), v)]
+        rows = set()
+        for p in acyclic_paths(cfg, 0, xs, 2000):
+            org = PathOriginsOv(body, fb, p)
+            roles = Roles(body, fb, org=org)
+            feasible = True
+            try:
+                for i, bi in enumerate(p[:-1]):
+                    t = body.blocks[bi]["term"]
+                    if t["k"] != "switch":
+                        continue
+                    c = simplify(org.of_operand(t["x"], bi, "t"))
+                    try:
+                        val = evalo.ev(c, env, fb, body)
+                    except evalo.Unknown:
+                        continue  # a condition that does not depend on the index (e.g. emptiness of the stack)
+                    taken = None
+                    for a_, bb in t["arms"]:
+                        if int(a_) == int(val):
+                            taken = bb
+                    if taken is None:
+                        taken = t["otherwise"]
+                    if taken != p[i + 1]:
+                        feasible = False
+                        break
+                if not feasible:
+                    continue
+                seq = []
+                for bi in p:
+                    t = body.blocks[bi]["term"]
+                    if t["k"] == "call":
+                        n = callee_name(t["f"], fb)
+                        if n == "std::io::Write::flush":
+                            seq.append("FLUSH(%s)" % roles.of_operand(t["args"][0], bi))
+                        elif n == "std::process::exit":
+                            seq.append("EXIT(%s)" % evalo.ev(org.of_operand(t["args"][0], bi, "t"), env, fb, body))
+                        elif n.rsplit("::", 1)[-1] not in ("unwrap", "expect", "deref", "deref_mut", "borrow_mut") and not n.startswith("core::fmt") and not n.startswith("core::ops::"):
+                            seq.append("CALL(%s)" % n.rsplit("::", 1)[-1])
+                rows.add(tuple(seq))
+            except evalo.Unknown as e:
+                bad.append("%d: %s" % (v, e))
+        table[v] = rows
+    want = {0: set(), 1: {("FLUSH(OUT)", "FLUSH(ERR)", "EXIT(0)"), ("FLUSH(ERR)", "FLUSH(OUT)", "EXIT(0)")}, 2: {("FLUSH(OUT)", "FLUSH(ERR)", "EXIT(1)"), ("FLUSH(ERR)", "FLUSH(OUT)", "EXIT(1)")}, 3: set(), 7: set()}
+    ok = not bad and all((table[v] <= want[v]) and (bool(table[v]) == bool(want[v])) for v in want)
+    R.check(ok, "pop_stack_wrap:exit_table", "popping from stack 1 flushes both streams and exits with status 0, from stack 2 with status 1; no other index terminates the process: %s %s" % ({k: sorted(v_) for k, v_ in table.items()}, bad), body.span)
+    if not R.anchor(len(xs) >= 1, "pop_stack_wrap:exits", "process::exit call(s) in pop_stack_wrap"):
+        return
     # must-pass-through restated as cut queries (reported separately because C11/C12 rely on it)
     for bi, t in body.calls():
         if callee_name(t["f"], fb) == "std::process::exit":
